@@ -231,6 +231,7 @@ def rule_panic(check):
     n_ob = 0
     n_gen = 0
     hir_lines = set()
+    div_ok_lines = set()
     for f in prog.fns:
         if f.body is None:
             continue
@@ -285,7 +286,46 @@ def rule_panic(check):
                 os_ = pv.origins(f, a_[spec[1]]) if len(a_) > spec[1] else set()
                 if os_ and all(r_[0] == "call" and r_[1].split("::")[-1] in spec[2] for r_, _p in os_):
                     reason = "G14: the id was handed out by %s of the same builder" % "/".join(spec[2])
+            elif kind == "div":
+                dv = hir.lit_value(hir.peel(n["r"]))
+                if isinstance(dv, int) and not isinstance(dv, bool) and dv != 0:
+                    reason = "G16: the divisor is the non-zero constant %d" % dv
+                    div_ok_lines.add(hir.loc(n))
             elif kind == "dep-flag":
+                # G17 (same call): the encoder of the sourcemap crate walks the tokens once and, while the
+                # token's generated line differs from the previous one, pushes `;` and adds 1 to the previous
+                # line: tokens must reach the builder in the order of the generated positions, which is the
+                # order SourceMap::tokens() yields them in
+                if name == "add_raw":
+                    def _loops(f_, n_, depth=0):
+                        ls = [a for a in f_.ancestors(n_) if a.get("k") == "Match" and a.get("source", "").startswith("ForLoopDesugar") and hir.is_call(hir.peel(a["scrut"])) and (hir.callee_name(hir.peel(a["scrut"])) or "") == "into_iter"]
+                        if ls or depth > 2:
+                            return ls
+                        # add_raw sits in a helper: the loop is at the (single) place the helper is called from
+                        sites_ = [(h_, c_) for h_, c_, cc_ in prog.call_sites() if hir.is_call(c_) and prog.resolve_local(c_) is f_ and not h_.rec.get("in_test") and not h_.rec.get("gen")]
+                        if len(sites_) == 1:
+                            return _loops(sites_[0][0], sites_[0][1], depth + 1)
+                        return []
+
+                    loops = _loops(f, n)
+                    src_ok = False
+                    why_ = "add_raw is not called from a loop over the tokens of the rewrite map"
+                    if loops:
+                        it = hir.peel(loops[0]["scrut"])
+                        cur = hir.peel(hir.call_args(it)[0]) if hir.is_call(it) and hir.call_args(it) else it
+                        chain_ = []
+                        while cur.get("k") == "MethodCall" and cur["method"] in ("filter", "filter_map", "map", "inspect", "enumerate", "by_ref", "into_iter", "iter", "peekable"):
+                            chain_.append(cur["method"])
+                            cur = hir.peel(cur["recv"])
+                        if hir.is_call(cur) and (hir.callee_name(cur) or cur.get("method")) == "tokens" and "SourceMap" in ((cur.get("callee") or {}).get("path") or ""):
+                            src_ok = True
+                        else:
+                            why_ = "the loop that feeds add_raw iterates %s, not SourceMap::tokens() (through element-wise adapters at most)" % hir.describe(cur)[:80]
+                    k17 = "%s/%s/dep-order/add_raw" % (R, T.short(f))
+                    if src_ok:
+                        check.ok(R, k17, hir.loc(n), "G17: tokens are added in the order SourceMap::tokens() yields them (generated order)")
+                    else:
+                        check.bad(R, k17, hir.loc(n), "%s: sourcemap's encoder assumes non-decreasing generated lines; for a token on a lower line it appends `;` until a 32-bit counter wraps around (gigabytes of output, then an abort) instead of returning" % why_)
                 spec = DEP_FLAGS[name]
                 a_ = hir.call_args(n)
                 os_ = pv.origins(f, a_[spec[1]]) if len(a_) > spec[1] else set()
@@ -330,6 +370,8 @@ def rule_panic(check):
                     check.ok(R, key, where, "G13: span.hi - span.lo of one span (hi >= lo is an invariant of swc spans)")
                 elif t["assert_kind"] in ("Overflow", "OverflowNeg") and not strict_overflow:
                     check.ok(R, key, where, "overflow checks are a dev-profile artefact: the release build wraps instead of panicking (profile.release has no overflow-checks)")
+                elif t["assert_kind"] in ("DivisionByZero", "RemainderByZero") and where in div_ok_lines:
+                    check.ok(R, key, where, "G16: division by a non-zero constant (obligation handled above)")
                 elif t["assert_kind"] == "BoundsCheck" and where in hir_lines:
                     check.ok(R, key, where, "bounds check of an index obligation handled above")
                 else:
